@@ -834,7 +834,22 @@ func (in *inliner) expandStmt(st ast.Stmt, caller *ast.FuncDecl) []ast.Stmt {
 		nret := countReturns(h.Body)
 		if nret == 1 {
 			// shape A
+			// a parameter the helper assigns stands for the caller's own variable when that variable receives the result
+			// (`dst = appendKey(dst, name)`): see tryDirect
+			in.direct = map[types.Object]bool{}
+			if s.Tok == token.ASSIGN && h.Type.Params != nil {
+				k := 0
+				for _, f := range h.Type.Params.List {
+					for _, nm := range f.Names {
+						if k < len(call.Args) {
+							in.tryDirect(nm, call.Args[k], call, s.Lhs, []*ast.ReturnStmt{last}, caller)
+						}
+						k++
+					}
+				}
+			}
 			cl, pre, ok := in.prepare(call, h, caller)
+			in.direct = nil
 			if !ok {
 				return nil
 			}
@@ -2150,10 +2165,9 @@ func (in *inliner) tryDirect(param *ast.Ident, arg ast.Expr, call *ast.CallExpr,
 		if pos >= len(r.Results) {
 			return
 		}
-		rid, ok := ast.Unparen(r.Results[pos]).(*ast.Ident)
-		if !ok || p.Info.Uses[rid] != pobj {
-			return
-		}
+		// whatever the helper hands back in this position is stored into the caller's variable when the helper is left
+		// (`return append(dst, '"', ':')` as well as `return dst`): what the body stored into the parameter before that
+		// is overwritten at every exit and, under the conditions below, seen by nobody else in between
 	}
 	// no other argument mentions the variable, no closure of the caller captures it, its address is not taken
 	n := 0
